@@ -43,6 +43,13 @@ pub trait Rng {
         ensures r.start <= t < r.end, final(self).draws() == old(self).draws().push(t as int);
 }
 
+// ---------------------------------------------------------------- robustness: the usual bit-twiddling spellings of /2 and *2
+global size_of usize == 8;    // ASSUMED: 64-bit target (needed only for the two bit-vector lemmas below)
+pub broadcast proof fn lemma_shr1(x: usize) ensures #[trigger] (x >> 1) == x / 2
+{ assert(x >> 1 == x / 2) by (bit_vector); }
+pub broadcast proof fn lemma_shl1(x: usize) requires x <= 0x7fff_ffff_ffff_ffff ensures #[trigger] (x << 1) == x * 2
+{ assert(x <= 0x7fff_ffff_ffff_ffffusize ==> x << 1 == x * 2) by (bit_vector); }
+
 // ---------------------------------------------------------------- specs
 pub open spec fn sub_at(s: Seq<W>, i: int) -> int { if 0 <= i < s.len() { s[i] as int } else { 0 } }
 pub open spec fn child_sum(s: Seq<W>, i: int) -> int { sub_at(s, 2*i+1) + sub_at(s, 2*i+2) }
@@ -302,6 +309,7 @@ impl WeightedTreeIndex {
 //@        requires wf(self.subtotals@), index < self.subtotals.len(),
 //@        ensures r as int == view(self.subtotals@)[index as int]
     {
+//@        broadcast use {lemma_shr1, lemma_shl1};
 //@        assert(wt(self.subtotals@, index as int) >= 0);
         let left_index = 2 * index + 1;
         let right_index = 2 * index + 2;
@@ -323,6 +331,7 @@ impl WeightedTreeIndex {
 //@                && res.unwrap() as int == view(old(self).subtotals@).last()
 //@                && view(final(self).subtotals@) == view(old(self).subtotals@).drop_last(),
     {
+//@        broadcast use {lemma_shr1, lemma_shl1};
         match self.subtotals.pop() { Some(v_) => { let weight = &v_; {
 //@            let ghost s0 = old(self).subtotals@;
 //@            let ghost n1 = s0.len() as int - 1;          // index of the popped leaf
@@ -339,6 +348,7 @@ impl WeightedTreeIndex {
 //@                    bumped(base, self.subtotals@, n1, index as int, d),
 //@                decreases index,
             {
+//@                broadcast use {lemma_shr1, lemma_shl1};
 //@                let ghost prev = index as int;
 //@                let ghost before = self.subtotals@;
 //@                proof {
@@ -365,6 +375,7 @@ impl WeightedTreeIndex {
 //@            res matches Err(e) ==> (e == Error::InvalidWeight <==> weight < 0) && (e == Error::Overflow <==> weight >= 0),
 //@            res.is_ok() ==> wf(final(self).subtotals@) && view(final(self).subtotals@) == view(old(self).subtotals@).push(weight as int),
     {
+//@        broadcast use {lemma_shr1, lemma_shl1};
         if !(weight >= W::ZERO) {
             return Err(Error::InvalidWeight);
         }
@@ -388,6 +399,7 @@ impl WeightedTreeIndex {
 //@                bumped(base, self.subtotals@, n, index as int, weight as int),
 //@            decreases index,
         {
+//@            broadcast use {lemma_shr1, lemma_shl1};
 //@            let ghost prev = index as int;
 //@            let ghost before = self.subtotals@;
 //@            proof {
@@ -425,6 +437,7 @@ impl WeightedTreeIndex {
 //@            res matches Err(e) ==> (e == Error::InvalidWeight <==> weight < 0) && (e == Error::Overflow <==> weight >= 0),
 //@            res.is_ok() ==> wf(final(self).subtotals@) && view(final(self).subtotals@) == view(old(self).subtotals@).update(index as int, weight as int),
     {
+//@        broadcast use {lemma_shr1, lemma_shl1};
         if !(weight >= W::ZERO) {
             return Err(Error::InvalidWeight);
         }
@@ -453,6 +466,7 @@ impl WeightedTreeIndex {
 //@                    bumped(s0, self.subtotals@, k, index as int, d),
 //@                decreases index,
             {
+//@                broadcast use {lemma_shr1, lemma_shl1};
 //@                let ghost prev = index as int;
 //@                let ghost before = self.subtotals@;
 //@                proof {
@@ -487,6 +501,7 @@ impl WeightedTreeIndex {
 //@                    bumped(s0, self.subtotals@, k, index as int, d),
 //@                decreases index,
             {
+//@                broadcast use {lemma_shr1, lemma_shl1};
 //@                let ghost prev = index as int;
 //@                let ghost before = self.subtotals@;
 //@                proof {
@@ -521,6 +536,7 @@ impl WeightedTreeIndex {
 //@            res matches Err(e) ==> (e == Error::InvalidWeight <==> !nonneg(ints(weights@))) && (e == Error::Overflow <==> nonneg(ints(weights@))),
 //@            res matches Ok(t) ==> wf(t.subtotals@) && view(t.subtotals@) == ints(weights@),
     {
+//@        broadcast use {lemma_shr1, lemma_shl1};
         let mut subtotals: Vec<W> = weights;
 //@        let ghost ws = ints(weights@);
 //@iter it
@@ -528,6 +544,7 @@ impl WeightedTreeIndex {
 //@            invariant subtotals@ == weights@, ws == ints(weights@),
 //@                forall|j: int| 0 <= j < it.index@ ==> #[trigger] ws[j] >= 0,
         {
+//@            broadcast use {lemma_shr1, lemma_shl1};
 //@            assert(*weight == subtotals@[it.index@]);
 //@            proof { if !(*weight >= 0) { assert(ws[it.index@] < 0); } }
             if !(*weight >= W::ZERO) {
@@ -544,6 +561,7 @@ impl WeightedTreeIndex {
 //@                    + (if 2*j+1 >= n - it.index@ { st(ws, 2*j+1) } else { 0 })
 //@                    + (if 2*j+2 >= n - it.index@ { st(ws, 2*j+2) } else { 0 }),
         {
+//@            broadcast use {lemma_shr1, lemma_shl1};
 //@            let ghost b = n as int - it.index@;
 //@            assert(i as int == b - 1);
             let w = subtotals[i].clone();
@@ -600,6 +618,7 @@ impl WeightedTreeIndex {
 //@                      && descend(self.subtotals@, 0, t).0 == i as int
 //@                      && 0 <= descend(self.subtotals@, 0, t).1 < wt(self.subtotals@, i as int) }),
     {
+//@        broadcast use {lemma_shr1, lemma_shl1};
         let total_weight = self.subtotals.first().cloned().unwrap_or(W::ZERO);
         if total_weight == W::ZERO {
             return Err(Error::InsufficientNonZero);
@@ -620,6 +639,7 @@ impl WeightedTreeIndex {
 //@                0 <= target_weight < wt(s, index as int),
 //@            decreases s.len() - index,
         {
+//@            broadcast use {lemma_shr1, lemma_shl1};
 //@            assert(wt(s, index as int) >= 0);
             // Maybe descend into the left sub tree.
             let left_index = 2 * index + 1;
